@@ -33,7 +33,7 @@ CHECKS["C11"] = {
         H("glyf", "c11.go", "VerifH_C11_components", ["fixed"], quick={"timeout": 120}),
         H("glyf", "c11.go", "VerifH_C11_loca", ["long", "short"], quick={"timeout": 120}),
     ],
-    "bounds": {"quick": "simple glyphs: <=2 contours, <=3 points, body <= 2*nc+2+5 symbolic bytes, instruction length <=2; glyph sets of <=2 glyphs (nil/simple/composite with 1-2 components, symbolic flags, args, ids, bbox); arbitrary glyf bytes <=16 split into 2 glyphs, both loca formats; loca: <=3 glyph sizes symbolic up to 200000 each",
+    "bounds": {"quick": "simple glyphs: <=3 contours, <=3 points, body <= 2*nc+2+5 symbolic bytes (+3 for three contours), instruction length <=2; glyph sets of <=2 glyphs (nil/simple/composite with 1-2 components, symbolic flags, args, ids, bbox); arbitrary glyf bytes <=16 split into 2 glyphs, both loca formats; loca: <=3 glyph sizes symbolic up to 200000 each",
                "thorough": "as quick with <=5 points, body +8, 3 glyphs, 24 arbitrary bytes"},
     "outside": ["more than 3 glyphs per set", "more than 2 components", "simple glyphs with more than 5 points", "comparison with golang.org/x/image"],
     "assumptions": ["SimpleGlyph value domain: Encoded is a complete unpadded description (what glyf.Decode delivers)",
@@ -195,6 +195,7 @@ CHECKS["C02"] = {
         H("cff", ["c05.go", "t2ref.go"], "VerifH_C05_bytes", ["accepted"], quick={"params": {"maxlen": 3}, "timeout": 280}, thorough={"params": {"maxlen": 5}, "timeout": 2400}),
         H("cff", "c13.go", "VerifH_C13_dict_bytes", ["accepted"], quick={"params": {"maxlen": 2}, "timeout": 280}, thorough={"params": {"maxlen": 3}, "timeout": 2400}),
         H("glyf", "c11.go", "VerifH_C11_fixpoint", ["accepted", "simple", "composite"], quick={"params": {"bytes": 16}, "timeout": 240}, thorough={"params": {"bytes": 24}, "timeout": 1500}),
+        H("glyf", "c11.go", "VerifH_C11_spec", ["accepted", "points"], quick={"params": {"maxextra": 5, "maxpts": 3}, "timeout": 240}, thorough={"params": {"maxextra": 8, "maxpts": 5}, "timeout": 1500}),
         H("hmtx", "c12.go", "VerifH_C12_hmtx_bytes", ["accepted"], quick={"params": {"maxhmtx": 8}, "timeout": 280}),
         H("head", "c12.go", "VerifH_C12_head_bytes", ["accepted"], quick={"timeout": 200}),
         H("maxp", "c12.go", "VerifH_C12_maxp_bytes", ["accepted"], quick={"timeout": 200}),
